@@ -29,9 +29,10 @@ Definition c12_run (p : project) (events_ts index_ts : option str) : sx :=
        SL (map (fun f => sx_evs (file_events f)) (p_files p));
        SL [sx_bool (o_generated m); sx_chunks (o_events_ts m); sx_bool (o_index_reexports_events m)];
        SL [sx_chunks events_ts; sx_opt sx_bool (reexports_events index_ts)];
-       sx_complaints p (oracle ss events_ts index_ts);
-       sx_complaints p (oracle ss (o_events_ts m) (if o_generated m then m_index else None));
-       SL (map (fun s => SL [SA (s_name s); sx_ty (expected_payload (s_payload s) (s_env s))]) ss) ].
+       sx_complaints p (oracle_m (p_mappings p) ss events_ts index_ts);
+       sx_complaints p (oracle_m (p_mappings p) ss (o_events_ts m) (if o_generated m then m_index else None));
+       SL (map (fun s => SL [SA (s_name s); sx_ty (expected_payload_m (p_mappings p) (s_payload s) (s_env s))]) ss);
+       SL (map (fun f => SL (map (fun e => SL [SA (fst e); SA (payload_ts (snd e))]) (map_events (p_mappings p) (file_events f)))) (p_files p)) ].
 
 Extraction Language OCaml.
 Extraction "tt_c12.ml" c12_run.
